@@ -25,7 +25,7 @@ PROPERTIES = {
                       "selects has the NaN discipline its name promises, reduces with the ufunc its name promises, replaces NaN by the "
                       "identity of that operator, numbagg names map to the same-named group_* kernels, fall-backs keep the name, and "
                       "the group sort feeding the flox engine is stable. Decides the wiring of the engines, not numerical equality.",
-        "explanation": "R-DISPATCH over (kernel, engine) resolutions and engine-module bindings; R-STABLE over argsort sites; R-PASSTHROUGH[engine]: every stage runs with the engine the user chose",
+        "explanation": "R-DISPATCH over (kernel, engine) resolutions and engine-module bindings; R-STABLE over argsort sites; R-PASSTHROUGH[engine]: every stage runs with the engine the user chose; R-VARSHIFT; R-PAIRS[perm]; R-LAYOUT: no flattening in memory order; R-MISSINGCODE: every code producer sends NaN/NaT labels to -1; R-UNPERMUTE: results are put back in order with the inverse permutation",
     },
     "C05": {
         "rules": [rule_truthy, rule_fillflow, rule_parallel, rule_counter, CD.rule_identitycodes, CD.rule_labelvalue, CD.rule_missingcode],
@@ -130,7 +130,7 @@ PROPERTIES = {
                       "to the announced slot, the engine dispatch result is cast per kernel, the lazy meta is built from the same slot, and the "
                       "re-indexing that runs after the cast makes no dtype decision of its own beyond NA promotion. "
                       "Promotion arithmetic and announced-vs-computed chunk sizes are not decided.",
-        "explanation": "R-DTYPETABLE, R-FINALCAST, R-PROMOTE, R-PAIRS[outinds], R-REINDEXDTYPE",
+        "explanation": "R-DTYPETABLE, R-FINALCAST, R-PROMOTE, R-PAIRS[outinds], R-REINDEXDTYPE, R-SUBSUMED (no dead dtype-class branch), R-ACCDTYPE (block accumulators derive from the final dtype), R-FINALDEPS (the final dtype depends on reduction, input dtype, requested dtype and fill value only)",
     },
     "C16": {
         "rules": [M.rule_coindex, rule_passthrough_sort, rule_sorted, rule_token, rule_blocklabels],
@@ -139,16 +139,16 @@ PROPERTIES = {
         "level_text": "Static: whenever groupby_reduce re-indexes the result along the group axis it re-indexes the labels with the same "
                       "index in the same block, and vice versa; every stage that takes `sort` receives the caller's `sort` unchanged "
                       "(scans pin it by design). Which order results is not decided.",
-        "explanation": "R-COINDEX, R-PASSTHROUGH[sort], R-SORTED",
+        "explanation": "R-COINDEX, R-PASSTHROUGH[sort], R-SORTED, R-TOKEN (sort is part of the layer names: sorted and unsorted results computed together are not mixed), R-BLOCKLABELS (per-block label lists follow the sort flag)",
     },
     "C18": {
-        "rules": [M.rule_blockonly, PR.rule_unpermute],
+        "rules": [M.rule_blockonly, PR.rule_unpermute, rule_token],
         "thorough": [selftest],
         "technique": "registry check; CFG dominance of a refusal over graph construction; three-site agreement",
         "level_text": "Static, all-paths: order statistics declare no block/combine decomposition, a refusal dominates graph construction "
                       "unless the plan is blockwise, and the three sites that special-case the extra leading axis agree with the registry. "
                       "Quantile numerics are not decided.",
-        "explanation": "R-BLOCKONLY",
+        "explanation": "R-BLOCKONLY; R-UNPERMUTE (vector q: rows come back in the order given); R-TOKEN (q / ddof are part of the layer names)",
     },
     "C20": {
         "rules": [M.rule_collide, M.rule_castorder, rule_infresolve, M.rule_varshift, M.rule_accdtype],
@@ -157,7 +157,7 @@ PROPERTIES = {
         "level_text": "Static: no all-NaN detector compares a result with its own NaN substitute unless conjoined with a valid-member "
                       "count; the reduceat calls and output buffer use the requested dtype; numbagg's input casts only widen and the "
                       "requested dtype applies to the result. Overflow and cancellation numerics are not decided.",
-        "explanation": "R-COLLIDE, R-CASTORDER, R-INFRESOLVE, R-VARSHIFT",
+        "explanation": "R-COLLIDE, R-CASTORDER, R-INFRESOLVE, R-VARSHIFT, R-ACCDTYPE (integer block accumulators are as wide as the final dtype)",
     },
     "C03": {
         "rules": [rule_keys, rule_order, rule_axiskey, rule_global, rule_algebra, rule_contig, rule_pure],
@@ -190,7 +190,7 @@ PROPERTIES = {
                       "finalizer) tuple is a row of the monoid table and the min_count counter extends all parallel tuples. Given that "
                       "the kernels do what their names say, table membership is the decomposition law; numerics and run-time "
                       "user-defined Aggregation objects are not decided.",
-        "explanation": "R-ALGEBRA/R-PARALLEL: every registered blueprint's (block kernel, combine, intermediate fill, "
+        "explanation": "R-ALGEBRA/R-PARALLEL: every registered blueprint's (block kernel, combine, intermediate fill, ; R-INFRESOLVE; R-SUBSUMED: no dtype-class branch of the fill resolution is dead (timedelta64 before integer)"
                        "intermediate dtype, finalizer) tuple is compared with the monoid table; decides the wiring of "
                        "the decomposition, not the numerics of the kernels nor user-defined Aggregation objects",
     },
